@@ -3,6 +3,7 @@ package vc
 import (
 	"fmt"
 	"go/types"
+	"os"
 
 	"golang.org/x/tools/go/ssa"
 )
@@ -122,6 +123,9 @@ func (x *Exec) ExecPaths(fr *frame, st *State, k func(st *State, val Value)) {
 				continue
 			case *ssa.If:
 				cond := x.operand(st, ins.Cond).L[0]
+				if traceForks && !cond.IsTrue() && !cond.IsFalse() {
+					fmt.Fprintf(os.Stderr, "FORK %s %s: %s\n", fn.Name(), x.Prog.Pos(ins.Cond.Pos()), x.C.Show(cond))
+				}
 				for bi, c := range []*Term{cond, x.C.Not(cond)} {
 					pc := x.C.And(st.PC, c)
 					if pc.IsFalse() {
@@ -237,3 +241,5 @@ func (x *Exec) tryInstr(fr *frame, st *State, ins ssa.Instruction) (req *inlineR
 // forking at the instruction level (execFrom does it in merge mode); here the capacity
 // of literal-built slices is literal, so nothing is needed.
 var _ = types.Typ
+
+var traceForks = os.Getenv("B6VC_TRACE") != ""
